@@ -256,17 +256,25 @@ fn run_case(c: &Case) -> Outcome {
                 Op::Sweep => {
                     steps.push(cur.coq());
                     let now = w.now();
+                    let mut groups: Vec<(Vec<u64>, String)> = vec![];
                     for t in instants(&cur, now) {
                         w.set_time(t);
                         let to = w.time_obs(&c.probes);
                         o.impl_steps += 1;
                         monitor_time(k, &cur, &to, &c.probes, &mut w.hashes, &mut o.violations);
-                        let term = to.coq();
-                        o.distinct.push(format!("{} {:?} {}", k.coq(), cur.stages.as_ref().ok(), term));
+                        let body = to.body_coq();
+                        o.distinct.push(format!("{} {:?} {} {}", k.coq(), cur.stages.as_ref().ok(), t, body));
                         if o.sample.is_empty() && to.active.is_some() {
                             o.sample = format!("at {}: active_stage_id {} has_member {:?} config {:?}", t, to.active_id, to.has, to.cfg);
                         }
-                        steps.push(term);
+                        // consecutive instants with identical answers share one step
+                        match groups.last_mut() {
+                            Some((ts, b)) if *b == body => ts.push(t),
+                            _ => groups.push((vec![t], body)),
+                        }
+                    }
+                    for (ts, body) in groups {
+                        steps.push(format!("STime {} {}", coq_list(&ts.iter().map(|t| t.to_string()).collect::<Vec<_>>()), body));
                     }
                     w.set_time(now);
                     o.hist.push(format!("{}:sweep:ok", k.name()));
